@@ -5,7 +5,7 @@ from . import tracecheck
 from .limbs import num
 
 
-C02_CLAUSES = {"OptimumAchieved", "HumanShareCaps", "FeedShareCaps", "BioShareCaps", "NoStoragePolicy", "BioNonRising", "HumansPinned",
+C02_CLAUSES = {"OptimumAchieved", "IntakeCapsAsConfigured", "HumanShareCaps", "FeedShareCaps", "BioShareCaps", "NoStoragePolicy", "BioNonRising", "HumansPinned",
                "ScoreAchieved"}
 
 
@@ -40,7 +40,8 @@ def lp_trace(run, lp):
               wRetail=num((run.get("inputs") or {}).get("waste_retail", w["sf"])),
               sfInitial=q(c["sf_initial"] if add["sf"] else 0.0), store=bool(c["store"]),
               popNeed=q(c["POP"] * c["KCALS_MONTHLY"] / 1e9), monthDays=num(c["KCALS_MONTHLY"] / c["KCALS_DAILY"]),
-              capH=cap(c, "HUMANS"), capF=cap(c, "FEED"), capB=cap(c, "BIOFUEL"))
+              capH=cap(c, "HUMANS"), capF=cap(c, "FEED"), capB=cap(c, "BIOFUEL"),
+              capsCfg={"enabled": "enabled", "disabled_for_humans": "disabled"}.get(str(((run.get("job") or {}).get("options") or {}).get("intake_constraints")), "unknown"))
     ev = [dict(ev="Begin", c=rc)]
     feed_key, bio_key = ("feed", "biofuel") if lp["kind"] == "H" else ("max_feed", "max_biofuel")
     for m in range(n):
